@@ -350,9 +350,9 @@ Qed.
 (* PolyformTexture.equal ignores the texture's extensions (and the sampler name): two materials that
    differ only there are merged, and the second model's primitive refers to a material whose texture
    reference carries the first model's KHR_texture_transform.  (fixes/C06-texture-equal-ignores-extensions) *)
-Definition tx_plain : ptexture := {| tx_ptr := 1; tx_uri := "a.png"; tx_samp := None; tx_exts := [] |}.
+Definition tx_plain : ptexture := {| tx_ptr := 1; tx_uri := "a.png"; tx_samp := None; tx_exts := []; tx_xcls := [] |}.
 Definition tx_transformed : ptexture :=
-  {| tx_ptr := 0; tx_uri := "a.png"; tx_samp := None; tx_exts := [("KHR_texture_transform"%string, false)] |}.
+  {| tx_ptr := 0; tx_uri := "a.png"; tx_samp := None; tx_exts := [("KHR_texture_transform"%string, false)]; tx_xcls := [0] |}.
 Definition mat_with (ptr : N) (t : ptexture) : pmaterial :=
   {| pm_ptr := ptr; pm_name := "x";
      pm_pbr := Some {| pb_color := None; pb_tex := Some t; pb_metal := None; pb_rough := None; pb_mrtex := None |};
@@ -364,19 +364,22 @@ Definition tex_ext_scene : scene :=
                        mo_t := None; mo_r := None; mo_s := None; mo_inst := [] |} ];
      sc_lights := [] |}.
 
+(* Documentation of the defect repaired by 31c30a5: the PINNED texture equality calls the two textures equal
+   although their extension lists differ (so the two materials were merged and model "b" got model "a"'s
+   KHR_texture_transform: "material-content" failed); with the repaired equality the materials are
+   different and the scene's document passes the whole checker. *)
 Theorem material_content_refuted_witness :
-  exists sc, scene_ok sc /\ scene_ptr_ok sc /\ scene_rejected sc = false /\
-             gltf_check_struct sc (obs_text sc) = [] /\
-             In "material-content"%string (gltf_check_models sc (obs_text sc)) /\ gltf_validb sc (obs_text sc) = false.
+  ptex_equal_pinned (Some tx_transformed) (Some tx_plain) = true /\ tx_exts tx_transformed <> tx_exts tx_plain /\
+  mat_equal (mat_with 0 tx_transformed) (mat_with 1 tx_plain) = false /\
+  scene_ok tex_ext_scene /\ scene_ptr_ok tex_ext_scene /\ scene_rejected tex_ext_scene = false /\
+  gltf_validb tex_ext_scene (obs_text tex_ext_scene) = true.
 Proof.
-  exists tex_ext_scene. split; [|split; [|split; [|split; [|split]]]].
+  split; [reflexivity|]. split; [discriminate|]. split; [reflexivity|]. split; [|split; [|split]].
   - unfold scene_ok, tex_ext_scene. cbn [sc_models].
     repeat constructor; cbn; try lia; try (vm_compute; reflexivity).
   - intros m1 m2 (mo1 & H1 & ->) (mo2 & H2 & ->) _. cbn [sc_models tex_ext_scene In] in H1, H2.
     destruct H1 as [<-|[<-|[]]], H2 as [<-|[<-|[]]]; reflexivity.
   - vm_compute. reflexivity.
-  - vm_compute. reflexivity.
-  - vm_compute. tauto.
   - vm_compute. reflexivity.
 Qed.
 
